@@ -12,6 +12,10 @@
 //!   mid <n,n,...>                         copy calls with lengths up to 130 on a 640-byte arena (run-level judgement)
 //!   bigov <n,n,...>                       overlapping memmove with LARGE lengths (up to 65 600) and SMALL distances
 //!                                         (1..72, 127, 128, 129, both directions, two destination alignments) on a 96 KiB arena
+//!   bigov2 <n,n,...>                      overlapping memmove, n up to 131 072, distances 4096*k - j and 4096*k + j (k = 1..3, j = 0..64),
+//!                                         both directions, on a 168 KiB arena
+//!   huge <n,n,...>                        memcpy / memmove with lengths of megabytes (up to 16 MiB + 5) on a 40 MiB arena: co- and
+//!                                         misaligned, non-overlapping and overlapping in both directions (release / native probes)
 //!   guard <n,n,...>                       the SOURCE of copies / the operands of compares END right in front of an
 //!                                         unreadable page or START right behind one (mmap + mprotect): a load outside
 //!                                         [src, src+n) faults - the crash is the datum (read_outside)
@@ -46,6 +50,10 @@ const MID_L: usize = 640;
 static mut MID: Arena<MID_L> = Arena([0; MID_L]);
 const OV_L: usize = 96 << 10;
 static mut OV: Arena<OV_L> = Arena([0; OV_L]);
+const OV2_L: usize = 168 << 10;
+static mut OV2: Arena<OV2_L> = Arena([0; OV2_L]);
+const HUGE_L: usize = 40 << 20;
+static mut HUGE: Arena<HUGE_L> = Arena([0; HUGE_L]);
 static mut BIG: Arena<BIG_L> = Arena([0; BIG_L]);
 
 // ---------------------------------------------------------------------------------------------
@@ -158,6 +166,7 @@ unsafe fn put_runs(base: *const u8, l: usize, co: i64, has_co: bool) {
     puts(",\"runs\":[");
     let mut p = 0usize;
     let mut first = true;
+    let mut nruns = 0usize;
     while p < l {
         let v = base.add(p).read_volatile();
         let (kind, val): (i64, i64) = if v == tag(p) {
@@ -181,6 +190,11 @@ unsafe fn put_runs(base: *const u8, l: usize, co: i64, has_co: bool) {
             }
             q += 1;
         }
+        if nruns == 2000 {
+            // a correct result needs a handful of runs: a line cut here does not cover the arena and is rejected as it is
+            break;
+        }
+        nruns += 1;
         if !first {
             putb(b',');
         }
@@ -623,6 +637,49 @@ pub fn main() -> i32 {
                         do_copy("memmove", mov, ob, OV_L, n, d, d + dist);
                         dist = if dist == 72 { 127 } else { dist + 1 };
                     }
+                }
+            }
+        } else if mode == b"bigov2" {
+            let ob = core::ptr::addr_of_mut!(OV2).cast::<u8>();
+            fill_tags(ob, OV2_L);
+            for nw in word(cmd, 1).split(|c| *c == b',') {
+                let n = num(nw) as usize;
+                if nw.is_empty() || n > 131_072 {
+                    continue;
+                }
+                for dm in [0usize, 3] {
+                    let d = 16_384 + dm;
+                    for k in 1..=3usize {
+                        if dm == 3 && k > 1 {
+                            continue;
+                        }
+                        for j in 0..=64usize {
+                            for dist in [4096 * k - j, 4096 * k + j] {
+                                if j == 0 && dist != 4096 * k - j {
+                                    continue;
+                                }
+                                do_copy("memmove", mov, ob, OV2_L, n, d, d - dist);
+                                do_copy("memmove", mov, ob, OV2_L, n, d, d + dist);
+                            }
+                        }
+                    }
+                }
+            }
+        } else if mode == b"huge" {
+            let hb = core::ptr::addr_of_mut!(HUGE).cast::<u8>();
+            fill_tags(hb, HUGE_L);
+            let far = 20 << 20;
+            for nw in word(cmd, 1).split(|c| *c == b',') {
+                let n = num(nw) as usize;
+                if nw.is_empty() || n > (16 << 20) + 64 {
+                    continue;
+                }
+                for (dm, sm) in [(0usize, 0usize), (0, 3), (5, 1)] {
+                    do_copy("memcpy", cpy, hb, HUGE_L, n, 8192 + dm, far + sm);
+                    do_copy("memmove", mov, hb, HUGE_L, n, far + dm, 8192 + sm);
+                    // overlapping: destination below the source (forward copy), above it (backward copy)
+                    do_copy("memmove", mov, hb, HUGE_L, n, 8192 + dm, 8192 + 4099 + sm);
+                    do_copy("memmove", mov, hb, HUGE_L, n, 8192 + 4099 + dm, 8192 + sm);
                 }
             }
         } else if mode == b"guard" {
